@@ -861,10 +861,13 @@ def extra_C18(eng, cases):
         if first_ok_fin(c, b1) is None:
             continue
         lines.append("same %s 1 %s %s" % (c.id, hx(sink_of(b1)), hx(sink_of(b2))))
+        # control: the file without metadata compared with itself (false when the file is not even
+        # self-consistent, which is C01/C02's business, not a dependence on metadata)
+        lines.append("same %s__self 1 %s %s" % (c.id, hx(sink_of(b2)), hx(sink_of(b2))))
         idx[c.id] = c
     res = driver_pairs(lines) if lines else {}
     for cid, c in idx.items():
-        if res.get(cid) is False:
+        if res.get(cid) is False and res.get(cid + "__self") is not False:
             eng.fail(c, "metadata changes samples, timing or configuration (same_media = false)")
 
 
@@ -1369,7 +1372,9 @@ def extra_C20(eng, cases):
             argv.extend(["--video-codec", d["valias"]])
         for k, flag in (("w", "--width"), ("h", "--height"), ("fps", "--fps"), ("rate", "--sample-rate"), ("ch", "--channels")):
             if d[k] is not None:
-                argv.extend([flag, str(d[k])])
+                # --flag=value: a value such as -1 given as a separate word is rejected by clap as an
+                # unknown option before the command logic runs (argv parsing is not modelled)
+                argv.append("%s=%s" % (flag, d[k]))
         if d["acodec"]:
             argv.extend(["--audio-codec", d["aalias"]])
         if d["frag"]:
